@@ -61,7 +61,10 @@ Tie        : correspondence of every hand-written model piece with the code:
                         snapshots, footers, bound ids and values, store listing, scan results, and the Arrow-schema CACHE of
                         every handle involved, read off the real DataFileManager after each step)
                transactions  the tx histories               vs Model/SchemaTx.v run_calls / end_tx with openings (thtrace: call tags,
-                        snapshots, library-written files on storage, every current file, scan_ok, handle caches)
+                        snapshots, library-written files on storage, every current file, scan_ok, handle caches, and per
+                        call the in-flight markers of pre-built files it leaves: the GC-protection step of append_files --
+                        marker writes / listing of announced runs / existence re-check failing, a run announced)
+                        (a recorded disagreement is printed in full and run again by --replay evidence/replay/C11-unproved.json)
 Findings   : (findings/C11-unchanged-tree.log, findings/C11-prebuilt-format-unchanged-tree.log, findings/C11-replays/)
                F-C11   unordered, id-less schema signature: reordered -> scans raise; renumbered -> rows mis-filtered   (fixed)
                F-C11b  pyarrow silently alters values validate_records_strict let through (1.5 -> 1, int -> timestamp,
@@ -124,7 +127,10 @@ MANIFEST_ENTRY = {
                   "are none or recomputed from the file), the full scan returns exactly the canonical rows of accepted records "
                   "calls and the rows of accepted files calls (C11_tx_exact_partial, under conv_sound), and calls made while "
                   "storage operations fail (metadata unreadable, marker writes failing) fail closed -- never 'no schema to "
-                  "enforce': derived from flags regenerated from the source (which failing operation is outside every try) "
+                  "enforce' --, as does the GC-protection step of a pre-built-file call (marker writes, the listing of announced "
+                  "collection runs or the existence re-check failing, a run announced: the call raises, queues nothing, leaves no "
+                  "marker it wrote): derived from flags regenerated from the source (which failing operation is outside every try, "
+                  "or only inside try blocks whose handlers re-raise) "
                   "(C11_tx_*); an append depends on the schema argument "
                   "object only through its schema_id and fields, never through derived attributes such as a stale "
                   "schema_string (C11_arg_object_irrelevant); handle provenance is irrelevant: over the REGENERATED actions of "
@@ -1329,8 +1335,16 @@ def oracle_faults(ctx) -> List[Tuple[Dict[str, Any], Dict[str, Any]]]:
     storage operations (metadata reads for the whole call / only after the call's first write / the first n reads;
     marker writes; data-plane reads), cleared before the transaction ends.  Crossed with the divergent schema
     arguments and divergent pre-built footers, on fresh and reused handles, after one ordinary append.  A call
-    that raises must leave no trace; whatever is accepted must scan back exactly."""
-    from harness.lib.c11_tx import FAULT_SPECS, gen_file, shrink_tx, tx_case_json
+    that raises must leave no trace; whatever is accepted must scan back exactly.
+
+    The GC-protection step of append_files (pre-built files get an in-flight marker, the adoption is refused while a
+    collection run is announced, the files are checked to be still there, the markers the call wrote are removed when
+    anything fails): directed transactions whose files call meets failing marker writes, a failing listing of the
+    announced runs, a failing existence re-check, or an announcement (in force / unreadable / expired) -- followed, in
+    the SAME transaction, by an ordinary files call and a records call under the same condition; a refused file next to
+    good ones under each of them (validation comes first); and a file handed in twice (nothing left to protect)."""
+    import random
+    from harness.lib.c11_tx import COLLECTING, FAULT_SPECS, PROTECT_SPECS, gen_file, shrink_tx, tx_case_json
     rng = ctx.rng
     pairs = [("long", [100, 101], [1, 2]), ("string", ["x1", "x2"], ["a1", "a2"]), ("double", [10.5, 11.5], [0.5, 1.5])]
     variants = ["identical", "renumbered", "ids_shifted", "reordered", "reordered_new_sid", "retyped", "nullability"]
@@ -1358,8 +1372,44 @@ def oracle_faults(ctx) -> List[Tuple[Dict[str, Any], Dict[str, Any]]]:
                 cases.append({"kind": "tx", "fields": fields, "seed": rng.getrandbits(30), "txs": [
                     {"handle": "A", "end": "commit", "calls": [{"op": "records", "variant": "omitted", "arg": None, "sid": 1, "build": "fresh", "records": [{"a": va[0], "b": vb[0]}]}]},
                     {"handle": hname, "end": "commit", "calls": [{"op": "files", "files": [f1, f2], "fault": copy.deepcopy(spec)}]}]})
+    # ---- the protection step of append_files (a generator of its own: the cases above are what they were without it)
+    r2 = random.Random((ctx.seed or 0) * 7919 + 11)
+    conditions: List[Dict[str, Any]] = [{"fault": copy.deepcopy(sp)} for sp in PROTECT_SPECS] + [{"collecting": how} for how in COLLECTING]
+    n_protect = 0
+    for cond in conditions:
+        for hname in ("fresh", "A"):
+            ty, va, vb = r2.choice(pairs)
+            fields = [{"id": 1, "name": "a", "type": ty, "required": False}, {"id": 2, "name": "b", "type": ty, "required": False}]
+            first = {"handle": "A", "end": "commit", "calls": [{"op": "records", "variant": "omitted", "arg": None, "sid": 1, "build": "fresh", "records": [{"a": va[0], "b": vb[0]}]}]}
+            calls = [{"op": "files", "files": [gen_file(r2, fields, "good"), gen_file(r2, fields, "good", "true")], **copy.deepcopy(cond)},
+                     {"op": "files", "files": [gen_file(r2, fields, "good")]},
+                     {"op": "records", "variant": "omitted", "arg": None, "sid": 1, "build": "fresh", "records": [{"a": va[1], "b": vb[1]}], **copy.deepcopy(cond)}]
+            cases.append({"kind": "tx", "fields": fields, "seed": r2.getrandbits(30),
+                          "txs": [first, {"handle": hname, "end": r2.choice(["commit", "commit", "abandon", "rollback"]), "calls": calls}]})
+            n_protect += 1
+        ty, va, vb = r2.choice(pairs)
+        fields = [{"id": 1, "name": "a", "type": ty, "required": False}, {"id": 2, "name": "b", "type": ty, "required": False}]
+        bad = r2.choice(["retyped", "missing", "reordered", "avro"])
+        cases.append({"kind": "tx", "fields": fields, "seed": r2.getrandbits(30), "txs": [
+            {"handle": r2.choice(["A", "fresh"]), "end": "commit",
+             "calls": [{"op": "files", "files": [gen_file(r2, fields, "good"), gen_file(r2, fields, bad)], **copy.deepcopy(cond)},
+                       {"op": "files", "files": [gen_file(r2, fields, "good")], **copy.deepcopy(cond)}]}]})
+        n_protect += 1
+    for end in ("rollback", "abandon"):
+        # the same file handed in again: the transaction already holds its marker -- nothing to protect, no window can
+        # hit; next to a new file the step runs (and fails) as usual.  (Never committed: the read path reads a path once,
+        # so a file queued twice is listed twice and its rows are returned once -- whether the caller "supplied" them
+        # twice is not for this check to say; Model/SchemaTx.v does not identify files by name when it scans.)
+        fields = [{"id": 1, "name": "a", "type": "long", "required": False}]
+        cases.append({"kind": "tx", "fields": fields, "seed": r2.getrandbits(30), "txs": [
+            {"handle": "A", "end": end,
+             "calls": [{"op": "files", "files": [gen_file(r2, fields, "good")]},
+                       {"op": "files", "files": [{"kind": "again", "ref": [0, 0]}], "fault": copy.deepcopy(PROTECT_SPECS[0])},
+                       {"op": "files", "files": [{"kind": "again", "ref": [0, 0]}, gen_file(r2, fields, "good")], "fault": copy.deepcopy(PROTECT_SPECS[1])},
+                       {"op": "files", "files": [{"kind": "again", "ref": [0, 0]}], "collecting": "announced"}]}]})
+        n_protect += 1
     results = bounded_many(ctx.scratch, [(c, 1) for c in cases])
-    stats = {"cases": len(cases), "faulted_calls_accepted": 0, "faulted_calls_rejected": 0, "fault_hits": 0}
+    stats = {"cases": len(cases), "protection_step_cases": n_protect, "faulted_calls_accepted": 0, "faulted_calls_rejected": 0, "fault_hits": 0}
     reported = set()
     runs = []
     for case, res in zip(cases, results):
@@ -1367,7 +1417,7 @@ def oracle_faults(ctx) -> List[Tuple[Dict[str, Any], Dict[str, Any]]]:
         for tev in res["trace"]:
             ctx.count(1 + len(tev["calls"]), ("fault", id(case), tev["tx"]))
             for c in tev["calls"]:
-                if c.get("fault"):
+                if c.get("fault") or c.get("collecting"):
                     stats["faulted_calls_" + c["outcome"]] += 1
                     stats["fault_hits"] += c.get("fault_hits", 0)
         for key, what in res["violations"]:
@@ -2056,24 +2106,32 @@ def claim_coq(d: Optional[Dict[Any, Any]]) -> str:
     return "(Some [" + "; ".join(ents) + "])"
 
 
-def fault_coq(spec: Optional[Dict[str, Any]]) -> Optional[str]:
-    """The model's name for a fault window; "" when there is none; None when the window is not modelled
-    (a bounded number of failing operations, other planes)."""
+def fault_coq(spec: Optional[Dict[str, Any]], collecting: Optional[str] = None) -> Optional[str]:
+    """The model's name for what a call meets (Model/SchemaTx.v fault); "" when there is nothing; None when it is not
+    modelled (a bounded number of failing operations, other planes, a window AND an announced collection run)."""
+    if collecting in ("announced", "garbage"):
+        return None if spec else "FCollecting"
     if not spec:
-        return ""
+        return ""                                    # (an expired announcement is no run in progress)
     if spec.get("count") is not None:
         return None
+    start = spec.get("start", "call")
     if spec["plane"] == "metadata" and spec["ops"] in ("read", "all"):
-        return {"call": "FBefore", "first-write": "FAfterWrite"}.get(spec.get("start", "call"))
-    if spec["plane"] == "inflight" and spec["ops"] in ("write", "all") and spec.get("start", "call") == "call":
+        return {"call": "FBefore", "first-write": "FAfterWrite"}.get(start)
+    if spec["plane"] == "inflight" and spec["ops"] in ("write", "all") and start == "call":
         return "FMarker"
+    if spec["plane"] == "collecting" and spec["ops"] in ("read", "all") and start == "call":
+        return "FAnnounce"
+    if spec["plane"] == "data" and spec["ops"] == "read" and start == "first-write":
+        return "FRecheck"
     return None
 
 
 def corr_tx(ctx, runs: List[Tuple[Dict[str, Any], Dict[str, Any]]]) -> None:
     """The transaction histories through Model/SchemaTx.v (run_calls / end_tx), pyarrow's observed conversions
     as the oracle: per transaction the tags of its calls, snapshot count, library-written files on storage,
-    every file of the current snapshot (footer, rows, bounds) and scan_ok."""
+    every file of the current snapshot (footer, rows, bounds), scan_ok, and per call the number of in-flight markers
+    of pre-built files it left behind (the GC-protection step of append_files: Model/SchemaTx.v call_marks)."""
     tags = arrow_tags()
     by_arrow = {}
     for t in TYPES:
@@ -2121,8 +2179,9 @@ def corr_tx(ctx, runs: List[Tuple[Dict[str, Any], Dict[str, Any]]]) -> None:
             if rc is not None:
                 rcs.append(f"({h}%Z, {rc})")
             calls, ctags = [], []
-            for c, cev in zip(tx["calls"], tev["calls"]):
-                ft = fault_coq(c.get("fault"))
+            pids: Dict[Tuple[int, int], int] = {}
+            for ci, (c, cev) in enumerate(zip(tx["calls"], tev["calls"])):
+                ft = fault_coq(c.get("fault"), c.get("collecting"))
                 if ft is None:
                     ok = False
                     unmodelled += 1
@@ -2134,8 +2193,17 @@ def corr_tx(ctx, runs: List[Tuple[Dict[str, Any], Dict[str, Any]]]) -> None:
                     ctags.append(classify(cev))
                 else:
                     pfs = []
-                    for spec, fo in zip(c["files"], cev.get("files", [])):
-                        pid += 1
+                    for fi, (spec, fo) in enumerate(zip(c["files"], cev.get("files", []))):
+                        if spec["kind"] == "again":  # the SAME file as an earlier one of this transaction: same name
+                            ref = tuple(spec["ref"])
+                            while tx["calls"][ref[0]]["files"][ref[1]]["kind"] == "again":
+                                ref = tuple(tx["calls"][ref[0]]["files"][ref[1]]["ref"])
+                            spec = tx["calls"][ref[0]]["files"][ref[1]]
+                            this_id = pids[ref]
+                        else:
+                            pid += 1
+                            this_id = pid
+                        pids[(ci, fi)] = this_id
                         if fo["footer"] is None:
                             foot = "None"
                         else:
@@ -2150,7 +2218,7 @@ def corr_tx(ctx, runs: List[Tuple[Dict[str, Any], Dict[str, Any]]]) -> None:
                             typed_exprs.append(f"forallb (fun row => forallb (fun x => has_kind (colkind {fl} (fst (fst x))) (cell (vrow row) (fst (fst x)))) {fl}) {rows}")
                         k = spec["kind"]
                         claim = fo.get("claim") or (None, None)
-                        pfs.append(f"{{| pf_id := {pid}%Z; pf_canonical := {b2c(k != 'noncanonical')}; pf_exists := {b2c(k != 'missing')}; "
+                        pfs.append(f"{{| pf_id := {this_id}%Z; pf_canonical := {b2c(k != 'noncanonical')}; pf_exists := {b2c(k != 'missing')}; "
                                    f"pf_parquet := {b2c(k not in ('avro', 'orc_declared'))}; pf_footer := {foot}; pf_rows := {rows}; "
                                    f"pf_lo := {claim_coq(claim[0])}; pf_hi := {claim_coq(claim[1])} |}}")
                     if len(pfs) != len(c["files"]):
@@ -2174,7 +2242,8 @@ def corr_tx(ctx, runs: List[Tuple[Dict[str, Any], Dict[str, Any]]]) -> None:
                     lo = hi = "[]"
                 real_files.append(f"({footer}, {rows}, {lo}, {hi})")
             evs.append(f"([{'; '.join(opens)}], {{| t_handle := {h}%Z; t_calls := [{'; '.join(calls)}]; t_end := {end} |}}, [{'; '.join(real_files)}], [{'; '.join(rcs)}])")
-            obs.append((ctags, tev["nsnaps"], tev["store"], len(tev["files"]), True, tev["scan"] != "raises", True))
+            obs.append((ctags, tev["nsnaps"], tev["store"], len(tev["files"]), True, tev["scan"] != "raises", True,
+                        [cev.get("marks", 0) for cev in tev["calls"]]))
         if not ok:
             continue
         exprs.append(f"thtrace {conv} (init (Some {ischema_coq(1, case['fields'])})) [{'; '.join(evs)}]")
@@ -2185,12 +2254,13 @@ def corr_tx(ctx, runs: List[Tuple[Dict[str, Any], Dict[str, Any]]]) -> None:
     bad = []
     ntx = 0
     for case, i, g in zip(kept, impl, got):
-        g2 = [(list(x[0]),) + tuple(x[1:]) for x in g]
+        g2 = [(list(x[0]),) + tuple(x[1:7]) + (list(x[7]),) for x in g]
         ntx += len(i)
         if g2 != i:
             k = next((n for n, (a, b) in enumerate(zip(i, g2)) if a != b), None)
             bad.append({"case": tx_case_json(case), "first_differing_tx": k,
-                        "impl (call tags, snapshots, library files stored, current files, files match, scan ok, handle caches match)": i[k] if k is not None else i,
+                        "impl (call tags, snapshots, library files stored, current files, files match, scan ok, handle caches match, "
+                        "markers of pre-built files left per call)": i[k] if k is not None else i,
                         "model": g2[k] if k is not None else g2})
     ctx.correspondence("transactions", len(kept), bad)
     # pf_typed (hypothesis of C11_tx_history_filter): every cell pyarrow reads from a parquet column has the kind of the
@@ -2224,6 +2294,9 @@ def run(ctx) -> None:
                         "field names and ids unique within a schema, ids integers (enforced by Schema.__post_init__, and again by "
                         "append_data on the argument object as it is at the call; pinned by the translator)",
                         "field names are strs (a Schema whose field name is no str is accepted by the constructor; every append to it raises)",
+                        "a pre-built file is handed to append_files at most once per table (the model recognises a file by its name only where "
+                        "the code does for the outcome of a call: the GC-protection step skips a file the transaction already holds a marker for; "
+                        "its scans list a file queued twice twice, the read path reads a path once)",
                         "column types are the primitive types of Schema.__post_init__ and list<...> of them ({'type': 'list<e>'}); every other definition is a string column",
                         "C11_tx_history_filter: every cell of a pre-built parquet file's column has the kind of the column's footer type (pf_typed)",
                         "C13: pruning by bounds stored under the looked-up id never changes a filtered scan (composed in C11_history_filter)"]
@@ -2251,7 +2324,61 @@ def run(ctx) -> None:
                                       "worker_restarts": _WORKER.restarts if _WORKER else 0}
 
 
+def replay_correspondence(ctx, payload) -> int:
+    """A replay file written for a broken correspondence (kind no-failing-input-found): print every recorded
+    disagreement IN FULL (the check's own output shows the first 600 characters only) and run the recorded transaction
+    histories again through the real library and through the model, side by side, per transaction."""
+    from harness.lib.c11_tx import tx_case_unjson
+    broken = payload.get("broken_correspondence", {})
+    for p in payload.get("broken_theorems_or_build", []):
+        print("  proof / build:", p)
+    for name, ds in broken.items():
+        print(f"correspondence {name}: {len(ds)} disagreement(s) recorded (at most 5 are kept)")
+        for n, d in enumerate(ds):
+            print(f"--- {name} disagreement {n}")
+            for k, v in d.items():
+                if k == "case" and isinstance(v, dict) and v.get("kind") == "tx":
+                    print(f"  case: fields={json.dumps(v['fields'])} seed={v.get('seed')}")
+                    for ti, tx in enumerate(v["txs"]):
+                        print(f"    tx {ti}: handle={tx['handle']} end={tx['end']}" + "".join(f" {o}={json.dumps(tx[o])}" for o in ("open", "also_open") if tx.get(o)))
+                        for ci, c in enumerate(tx["calls"]):
+                            print(f"      call {ci}: {json.dumps(c)}")
+                else:
+                    print(f"  {k}: {json.dumps(v)}")
+    still = 0
+    for n, d in enumerate(broken.get("transactions", [])):
+        if not (isinstance(d.get("case"), dict) and d["case"].get("kind") == "tx"):
+            continue
+        case = tx_case_unjson(d["case"])
+        res = bounded_case(case, os.path.join(ctx.scratch, "replay"), 1)
+        print(f"--- transactions disagreement {n}, run again now")
+        for tev in res["trace"]:
+            print("  impl  tx", tev["tx"], tev["handle"], [(c["op"], c["outcome"], c.get("error", ""), c.get("message", "")[:100], "marks=%d" % c.get("marks", 0))
+                                                     for c in tev["calls"]], "->", tev["commit"], "snapshots:", tev["nsnaps"], "scan:", tev["scan"])
+        for k, w in res["violations"]:
+            print("  impl  ORACLE", k, "-", w)
+        before = len(ctx.corr.get("transactions", {}).get("disagreements", []))
+        corr_tx(ctx, [(case, res)])
+        now = ctx.corr.get("transactions", {}).get("disagreements", [])[before:]
+        if now:
+            still += 1
+            for x in now:
+                print("  STILL DISAGREES at tx", x.get("first_differing_tx"))
+                for k, v in x.items():
+                    if k not in ("case", "first_differing_tx"):
+                        print(f"    {k}: {json.dumps(v)}")
+        else:
+            print("  model and implementation agree on this history now (or a call of it meets a window that is not modelled)")
+    if broken.get("transactions") is not None:
+        ctx.corr.pop("transactions", None)
+        ctx.corr.pop("pf_typed", None)
+    print("replay: STILL FAILS" if still else "replay: passes now" if broken.get("transactions") else "replay: nothing replayable (see the text above)")
+    return 1 if still else 0
+
+
 def replay(ctx, payload) -> int:
+    if payload.get("kind") == "no-failing-input-found":
+        return replay_correspondence(ctx, payload)
     case = payload.get("case", {})
     if case.get("kind") == "history":
         c = case_unjson(case["case"])
